@@ -56,7 +56,7 @@ def main(tier, seed, replay=None):
         n: {'layer2': 'slash'} for n in THEMES})
     # deep random derivations (tlc -simulate): slashes inside function
     # bodies inside call / grouping / header parentheses
-    sr, deep = gen.simulate(4000 if tier == 'quick' else 60000, maxtok=18,
+    sr, deep = gen.simulate(4000 if tier == 'quick' else 15000, maxtok=18,
                             maxnl=1, seed=seed + 7, sigma=DEEP_SIGMA,
                             workers=4, layer2='slash')
     rep.add_tlc(sr)
@@ -71,7 +71,7 @@ def main(tier, seed, replay=None):
     tmpls = gen.templates(rep)
     pool = [s for n in THEMES for s in themes[n]
             if any(t.cls in core.SLASHY for t in s.tokens)
-            and (tier != 'quick' or hash(s.key()) % 4 == seed % 4)]
+            and hash(s.key()) % (4 if tier == 'quick' else 2) == seed % 2]
     themes['embedded'] = gen.embeddings(pool, tmpls, rng, 1)
     rep.notes['embedded_sentences'] = len(themes['embedded'])
     rep.mark('generated')
@@ -88,7 +88,7 @@ def main(tier, seed, replay=None):
                 continue
             n += 1
             distinct.add(s.key())
-            variants = 2 if tier == 'quick' else 6
+            variants = 2 if tier == 'quick' else 3
             for v in range(variants):
                 gaps = {}
                 kinds = {}
